@@ -122,21 +122,29 @@ func runC19(e *Env) {
 				return
 			}
 			isLinux := parts[0] == "linux" || parts[0] == "android" // android satisfies the linux build constraint (same kernel interface)
+			// which loader is selected is read from what LoadFilter does, not from a file name: the stub contains no call
 			realLoader := false
 			nLoader := 0
 			var files []string
 			for _, f := range root.CompiledGoFiles {
-				b := filepath.Base(f)
-				files = append(files, b)
-				if b == "seccomp_linux.go" {
+				files = append(files, filepath.Base(f))
+			}
+			for _, f := range root.Syntax {
+				for _, d := range f.Decls {
+					fd, ok := d.(*ast.FuncDecl)
+					if !ok || fd.Recv != nil || fd.Body == nil || fd.Name.Name != "LoadFilter" {
+						continue
+					}
 					nLoader++
-					realLoader = true
-				}
-				if b == "seccomp_unsupported.go" {
-					nLoader++
+					ast.Inspect(fd.Body, func(n ast.Node) bool {
+						if _, ok := n.(*ast.CallExpr); ok {
+							realLoader = true
+						}
+						return true
+					})
 				}
 			}
-			add(nLoader == 1, "E4.api", t+"/one-loader", "", "exactly one loader implementation selected", fmt.Sprintf("%d loader implementations selected for %s (files: %v)", nLoader, t, files))
+			add(nLoader == 1, "E4.api", t+"/one-loader", "", "exactly one loader implementation selected", fmt.Sprintf("%d declarations of LoadFilter selected for %s (files: %v)", nLoader, t, files))
 			// the kernel interface exists on every Linux port and nowhere else: Linux targets get the real loader (a stub
 			// there makes LoadFilter return nil without installing anything), all others the stub
 			if isLinux {
